@@ -39,6 +39,13 @@ AMX = {
     },
 }
 
+TRACE = '''
+def on_transition(self, source, target, event):
+    self.seen.append((str(event), source.id, target.id))
+def on_exit_state(self, state):
+    self.seen.append(("exit", state.id))
+'''
+
 COMMON = '''
 def g1(self):
     return self.vals["g1"]
@@ -194,6 +201,22 @@ def g1(self):
 def g2(self):
     return self.vals["g2"]
 '''
+# one event id attached in two styles inside the same class body (event= on some transitions, attribute for others)
+RENDERINGS["mixed-styles"] = '''
+a = State(initial=True); b = State(); c = State(); d = State(final=True)
+a.to(b, event="go", cond="g1")
+go = a.to(c) | b.to(c)
+b.to(a, event="back")
+back = Event(c.to(a, unless="g2"))
+loop = b.to.itself()
+hop = c.to(b, unless="g2")
+hop.add_event("skip")
+b.to(d, event="halt", cond="g1")
+halt = a.to(d) | b.to(d) | c.to(d)
+@d.from_.any(unless="g2")
+def quit(self):
+    pass
+'''
 # inheritance: the base declares states and part of the events, the subclass the rest
 INHERIT_BASE = '''
 a = State(initial=True); b = State(); c = State(); d = State(final=True)
@@ -230,13 +253,13 @@ def build(style):
 
     ns = {"State": State, "StateMachine": StateMachine, "States": States, "Event": Event, "Letters": Letters}
     if style == "inheritance":
-        body = "\n".join("    " + ln for ln in (INHERIT_BASE + COMMON).strip().splitlines())
+        body = "\n".join("    " + ln for ln in (INHERIT_BASE + COMMON + TRACE).strip().splitlines())
         exec(f"class Base(StateMachine):\n{body}\n", ns)  # noqa: S102 - our own source
         sub = "\n".join("    " + ln for ln in INHERIT_SUB.strip().splitlines())
         exec(f"class M(Base):\n{sub}\n", ns)  # noqa: S102
     else:
         common = "" if style == "guard-decorators" else COMMON
-        body = "\n".join("    " + ln for ln in (RENDERINGS[style] + common).strip().splitlines())
+        body = "\n".join("    " + ln for ln in (RENDERINGS[style] + common + TRACE).strip().splitlines())
         exec(f"class M(StateMachine):\n{body}\n", ns)  # noqa: S102
     cls = ns["M"]
     for name in ("g1", "g2"):
@@ -263,7 +286,7 @@ BUDGET = {
 }
 BOUNDS = {
     "quick": "one abstract machine (4 states incl. a final one; 6 events; two candidates for (a,go) and (b,halt), cond and unless guards, a self transition, one "
-    "transition bound to two events, `halt` from every non-final state next to an explicit guarded transition to the same target) rendered in 14 styles (guards also attached with @transition.cond / @event.unless decorators; the enum has an alias; a from_.any(unless=...) event): a.to(b), "
+    "transition bound to two events, `halt` from every non-final state next to an explicit guarded transition to the same target) rendered in 15 styles (one event id attached in two styles inside one class body; on_transition / on_exit_state traces compared as well; (guards also attached with @transition.cond / @event.unless decorators; the enum has an alias; a from_.any(unless=...) event): a.to(b), "
     "b.from_(a), multi-source from_(a,b,c) + to.itself(), from_.any(), event='id' / 'id id' / [ids] on the transition, id-less Event() objects passed by reference "
     "(single and in a list), Event(transitions, name=/id=), decorator-declared events, both associations of | and |=, States({...}), States.from_enum, base class + "
     "subclass; each compared with the reference rendering on states, events, allowed_events in every state, and one step from every state on every event and an "
@@ -310,7 +333,9 @@ def run(ctx, params):
     res = []
     for cls in (ref, oth):
         with ctx.notracing():
+            cls.seen = []
             sm = cls()
+            sm.seen = []
             sm.vals = vals
             sm.current_state_value = cur if style != "states-enum" or cls is ref else Letters[cur].value
         allowed = sorted({str(e) for e in sm.allowed_events})
@@ -319,8 +344,8 @@ def run(ctx, params):
             out = ("ret", r is None)
         except sm.TransitionNotAllowed as e:
             out = ("tna", str(e.event))
-        res.append((out, sm.current_state.id, allowed))
-    (o0, s0, a0), (o1, s1, a1) = res
+        res.append((out, sm.current_state.id, allowed, list(sm.seen)))
+    (o0, s0, a0, t0), (o1, s1, a1, t1) = res
     exp_allowed = sorted({e for e, _t, _c, _u in AMX["trans"][cur]})
     if a0 != exp_allowed or a1 != exp_allowed:
         raise Mismatch(f"allowed-events-differ:{tag}", f"state {cur}: reference {a0}, {style} {a1}, abstract machine {exp_allowed}")
@@ -334,7 +359,9 @@ def run(ctx, params):
         raise Mismatch(f"rendering-behaves-differently:{tag}", f"from {cur} on {ev}: abstract machine says {exp_kind}/{exp_state}, {style} gave {o1[0]}/{s1} (reference rendering {o0[0]}/{s0})")
     if (o0[0], s0) != (exp_kind, exp_state):
         raise Mismatch("rendering-behaves-differently:reference", f"from {cur} on {ev}: abstract machine says {exp_kind}/{exp_state}, reference gave {o0[0]}/{s0}")
-    if o0 != o1 and not (style == "decorator"):
+    if t0 != t1:
+        raise Mismatch(f"callback-trace-differs:{tag}", f"from {cur} on {ev}: reference ran {t0}, {style} ran {t1} (source/target/exit state seen by the callbacks)")
+    if o0 != o1 and not (style in ("decorator", "mixed-styles")):
         raise Mismatch(f"results-differ:{tag}", f"from {cur} on {ev}: {o0} vs {o1}")
     ctx.cover("pair-agrees")
     if idx is not None and idx > 0:
